@@ -16,7 +16,7 @@ RULE = ('queries {answers found at different depths, the deep ones behind a comp
         '(infinitely many answers, each deeper); left recursion lp(X) :- lp(X). lp(a). (diverges before any answer); a '
         'rule with a deep failing branch between answers; registered Python predicates whose clean-up (finally) code needs 0, 3, 12 or 30 nested calls, queried directly and through call/1; predicates answered from two sources (dynamic facts followed by compiled clauses, dynamic facts followed by a Python predicate); a Python predicate that yields True; a dynamic fact with a variable 12 levels deep (after every call two uses of it at once must still be independent)} x EVERY recursion_limit from 8 to 400 (each value moves the '
         'point at which the limit strikes; quick: every value up to 89, then every 14th) x projection functions {identity, observe the variables, '
-        'raise ValueError at the k-th answer for k=1..5, raise RuntimeError at the 2nd, raise StopIteration at the 2nd, raise KeyboardInterrupt at the 1st / SystemExit at the 2nd / an own BaseException subclass at the 2nd, run a bounded sub-query on the same engine for every answer (nested evaluate_bounded, inner limit 150 / 500)}, '
+        'raise ValueError at the k-th answer for k=1..5, raise RuntimeError at the 2nd, raise StopIteration at the 2nd, change the interpreter limit itself at the 1st answer, raise KeyboardInterrupt at the 1st / SystemExit at the 2nd / an own BaseException subclass at the 2nd, run a bounded sub-query on the same engine for every answer (nested evaluate_bounded, inner limit 150 / 500)}, '
         'called from a shallow stack, in every 5th case while another query of the same engine is suspended at its first answer (it must be undisturbed afterwards); in three of every seven cases with the interpreter limit changed (to 1300, 1700 or 5000) AFTER the engine was created - restored means restored to the limit in force when the call was made; plus bounds ABOVE the interpreter\'s own limit (1200, 3000, 10000) for nat/1, ev/1, a compiled recursion over a dynamic base fact and len/2 of a 700-element list, with the identity projection and projections raising at answer 1, 200, 450, 900, 1400 (each call in a forked child: a dying interpreter is a violation); plus, for 8 queries at every limit 8..63, the same call in a quiet process and in one with every logger at DEBUG, a stream handler attached and warnings turned into errors, which must return the same. Checked: no RecursionError escapes; the result is a prefix of RefProlog\'s answer '
         'sequence (projected), and the whole sequence when the limit exceeds the measured stack depth of an unbounded '
         'run by a margin; afterwards sys.getrecursionlimit() is the old value and every live engine variable (weak set '
@@ -189,6 +189,18 @@ def projections(obsfn):
             return proj
         return fac
     # exceptions that are NOT derived from Exception (an interrupt, an exit request, an application's own)
+    # a projection (any code that runs during the bounded evaluation) that itself changes the interpreter limit and
+    # leaves it changed: afterwards the limit is still what it was BEFORE the call
+    def fac_sl():
+        cnt = [0]
+
+        def proj(x):
+            cnt[0] += 1
+            if cnt[0] == 1:
+                sys.setrecursionlimit(sys.getrecursionlimit() + 7)
+            return obsfn()
+        return proj
+    out.append(('changes-the-limit@1', fac_sl))
     out.append(('keyboardinterrupt@1', fac_be(KeyboardInterrupt, 1)))
     out.append(('systemexit@2', fac_be(SystemExit, 2)))
     out.append(('baseexception@2', fac_be(ProjStop, 2)))
